@@ -9,7 +9,7 @@ git -C /repo worktree add --detach "$MX/repo" HEAD -q || exit 3
 cp /repo/Cargo.lock "$MX/repo/"
 rsync -a --exclude target /verif/harness/ "$MX/harness/"
 sed -i "s|path = \"/repo\"|path = \"$MX/repo\"|" "$MX/harness/Cargo.toml"
-sed -i "s|target-dir = \"/verif/target\"|target-dir = \"$MX/target\"|" "$MX/harness/.cargo/config.toml"
+sed -i "s|target-dir = .*|target-dir = \"$MX/target\"|" "$MX/harness/.cargo/config.toml"
 ln -s /verif/corpus "$MX/root/corpus"
 cp /verif/known_findings.json "$MX/root/"
 export CARGO_NET_OFFLINE=true VERIF_ROOT="$MX/root"
